@@ -29,6 +29,9 @@ func main() {
 }
 
 var corpus = []string{
+	`local up; local function mk() local x = 1; up = function() x = x + 1; return x end; error("boom") end; emit((xpcall(mk, function(m) error("again") end))); emit((function(a,b,c,d,e,f,g,h) local p,q,r,s = 61,62,63,64 return a end)(10,20,30,40,50,60,70,80)); emit(up(), up())`,
+	`local fs = {}; for i = 1, 3 do do local x = i * 10; fs[i] = function() x = x + 1 return x end; if i == 2 then break end end end; emit((function(a,b,c,d,e) return e end)(1,2,3,4,5)); emit(fs[1](), fs[2](), fs[2]())`,
+	`local f; local co = coroutine.create(function() local x = 5; f = function() return x end; local z = nil; return z.y end); emit(coroutine.resume(co)); emit(f())`,
 	`local up; local function mk() local x=1; up=function() x=x+1; return x end; error("boom") end; emit(xpcall(mk, function(m) return m end)); emit((function(a,b,c,d,e,f,g,h) local p,q,r,s = 61,62,63,64 return a end)(10,20,30,40,50,60,70,80)); emit(up(), up())`,
 	`local x = 1; local function get() return x end; local function set(v) x = v end; emit(pcall(error, "e")); x = 2; emit(get()); set(5); emit(x, get())`,
 	`local a1 = 8; local function g() return a1 end; for i=1,2 do if i==1 then goto cont end ::cont:: end; a1 = 100; emit(g())`,
